@@ -107,6 +107,11 @@ def run(ck, prefixes, *, ns_ops, sim, probes_n, probe_sample):
             rng.shuffle(cases)
             if probe_sample:
                 cases = cases[:probe_sample]
+            env = [(slot, nm, enc) for nm in nsdriver.ENV_NAMES for slot in nsdriver.SLOTS
+                   for enc in ("atom", "quoted", "literal")]
+            ck.cov["probe_env_names"] = len(nsdriver.ENV_NAMES)
+            cases += env
+            rng.shuffle(cases)
             nchunk = 14
             size = (len(cases) + nchunk - 1) // nchunk
             for k in range(nchunk):
